@@ -101,16 +101,17 @@ PROPS = {
         "stall_is_violation": True,
         "stall_s": 8,
         "budget": {"quick": 80, "thorough": 600},
-        "runs": {"quick": 400, "thorough": 40000},
+        "runs": {"quick": 600, "thorough": 40000},
         "rule": "one run = 96 crafted datagrams fired at 8 real runIPServer listeners (one SO_REUSEPORT group, real NTS key provider); the first 187 runs of a batch enumerate "
                 "the complete space {256 first header bytes} x {lengths 0,1,47,48,49,50,51,52,75,76,100,1024,2047,2048} x {trailer zeros, random, 0xff, valid NTS request built with the project's encoder, "
-                "the same with one bit flipped}; later runs sample first bytes, lengths 0..2048, source ports and network duplicates; every 8th reply is fed back with a forged source; "
+                "the same with one bit flipped}; runs 187..373 enumerate the same space against 4 real runSCIONServer listeners (the payloads inside SCION/UDP packets handed over by a border router; replies must go back to that router "
+                "with ISD-AS, host and ports exchanged); later runs (every third over SCION) sample first bytes, lengths 0..2048, source ports, network duplicates and missing / nanosecond-form receive and missing / late transmit kernel timestamps at the listeners; every 8th reply is fed back with a forged source; "
                 "non-trivial = at least one datagram answered and one ignored; distinct = distinct event-log hash",
-        "exhaustive_part": "first byte x length class x trailer class (17920 cases) enumerated completely when the batch has at least 187 runs (quick tier: 400 runs)",
-        "required_probes": ["answered", "ignored", "nts-answered", "reflection-checked"],
-        "components": {"real": ["core/server runIPServer, handleRequest", "net/ntp DecodePacket, ValidateRequest", "net/nts DecodePacket, ProcessRequest", "net/ntske cookies, Provider"],
+        "exhaustive_part": "first byte x length class x trailer class (17920 cases) enumerated completely against the IP listeners when the batch has at least 187 runs and against the SCION listeners when it has at least 374 (quick tier: 600 runs)",
+        "required_probes": ["answered", "ignored", "nts-answered", "reflection-checked", "answered-over-scion"],
+        "components": {"real": ["core/server runIPServer, runSCIONServer, handleRequest", "net/ntp DecodePacket, ValidateRequest", "net/nts DecodePacket, ProcessRequest", "net/ntske cookies, Provider"],
                        "stub": dict(STUBS_COMMON, **{"kernel UDP stack": "simnet", "senders": "scripted datagram injector"})},
-        "assumptions": ["IP listener only in this check (the SCION listener shares ValidateRequest and handleRequest; its addressing clause is C13's)",
+        "assumptions": ["over SCION the reply's path reversal is C13's clause; here its addressing (previous hop, ISD-AS, host, ports) is checked",
                         "a datagram is given 5 ms of virtual time to be answered; replies are attributed through the simulator's causality tracking (which datagram the answering socket had read last)"],
     },
     "C10": {
